@@ -267,9 +267,36 @@ async fn serve_conn(mut sock: TcpStream, idx: usize, script: Script, sh: Arc<Sha
     Ok(())
 }
 
+/// One listening socket per server index for the whole life of this process (every child process has
+/// its own ports). Binding a fresh ephemeral port per case leaves thousands of ports in TIME_WAIT and
+/// exhausts the ephemeral range when checks run back to back.
+static POOL: Mutex<Vec<std::net::TcpListener>> = Mutex::new(Vec::new());
+
 async fn start_server(idx: usize, script: Script, sh: Arc<Shared>) -> (u16, tokio::task::JoinHandle<()>) {
-    let l = TcpListener::bind("127.0.0.1:0").await.expect("bind loopback");
-    let port = l.local_addr().unwrap().port();
+    let std_l = {
+        let mut pool = POOL.lock().unwrap();
+        while pool.len() <= idx {
+            let mut tries = 0;
+            let l = loop {
+                match std::net::TcpListener::bind("127.0.0.1:0") {
+                    Ok(l) => break l,
+                    Err(e) if tries < 300 => {
+                        let _ = e;
+                        tries += 1;
+                        std::thread::sleep(Duration::from_millis(200));
+                    }
+                    Err(e) => panic!("bind loopback: {:?}", e),
+                }
+            };
+            l.set_nonblocking(true).expect("nonblocking");
+            pool.push(l);
+        }
+        // connections left over from the previous case (never accepted there) must not reach this script
+        while pool[idx].accept().is_ok() {}
+        pool[idx].try_clone().expect("clone listener")
+    };
+    let port = std_l.local_addr().unwrap().port();
+    let l = TcpListener::from_std(std_l).expect("listener into runtime");
     let h = tokio::spawn(async move {
         loop {
             match l.accept().await {
